@@ -151,6 +151,7 @@ EXPORT int _vswprintf_s_chk(wchar_t *restrict dest, rsize_t dmax,
 
 #if defined(HAVE_WCSSTR) || !defined(SAFECLIB_DISABLE_EXTENSIONS)
     if (unlikely((p = safec_wfmt_find_n(fmt)) != NULL)) {
+        *dest = L'\0';
         invoke_safe_str_constraint_handler("vswprintf_s: illegal %n",
                                            (void *)dest, EINVAL);
         return -(EINVAL);
